@@ -34,6 +34,13 @@ Analyses == {"area_BET", "area_langmuir", "t_plot", "alpha_s", "dr_plot", "da_pl
              "enthalpy_sorption_whittaker", "initial_enthalpy_comp", "initial_enthalpy_point"}
 TwoIso == {"alpha_s", "isosteric_enthalpy"}
 
+\* Defects of the access plans that have been repaired in the tree under test (fix: commits).  The transcription
+\* below follows the source as found; each name switches one plan to its repaired form.  Edit together with the commit:
+\*   "alpha_s_reference_loading_basis"   : the reference look-ups name loading_basis='molar'
+\*   "isosteric_pressure_representation" : pressure_at(..., pressure_mode='absolute', pressure_unit='bar')
+\*   "whittaker_pressure_mode"           : convert_pressure(mode_to='absolute', unit_to='Pa')
+Repaired == {}
+
 G0 == [pm |-> N, pu |-> N, lb |-> N, lu |-> N, mb |-> N, mu |-> N]
 Rel == <<"relative", N>>
 \* atoms whose value depends on the temperature of the isotherm they are evaluated for
@@ -48,7 +55,9 @@ Ordered(role, lb, lu, sl, sp) ==
    << Rd(role, "p.loading", [G0 EXCEPT !.lb = lb, !.lu = lu], sl, Zero),
       Rd(role, "p.pressure", [G0 EXCEPT !.pm = "relative"], sp, Zero) >>
 
-WhittakerOp == [k |-> "CP", a |-> N, u |-> "Pa", pa |-> N, pu |-> N, la |-> N, lu |-> N, ma |-> N, mu |-> N]
+WhittakerOp == [k |-> "CP", a |-> IF "whittaker_pressure_mode" \in Repaired THEN "absolute" ELSE N, u |-> "Pa",
+                pa |-> N, pu |-> N, la |-> N, lu |-> N, ma |-> N, mu |-> N]
+RefLB == IF "alpha_s_reference_loading_basis" \in Repaired THEN "molar" ELSE N
 RoleState(role, sS, sR) ==
    CASE role = "S" -> sS [] role = "R" -> sR [] role = "W" -> ImplStep(sS, WhittakerOp).s
 
@@ -64,17 +73,18 @@ Plan(an, sS, sR) ==
           Ordered("R", "molar", "mol", "ref_area_loading", "ref_area_pressure")
           \o Ordered("S", "molar", "mmol", "loading", "pressure")
           \* reference_isotherm.loading_at(pressure, pressure_unit=isotherm.pressure_unit, loading_unit='mmol')
-          \o << Rd("R", "p.loading_at", [G0 EXCEPT !.pu = sS.pu, !.lu = "mmol"], "ref_loading", CanonP(Rel)),
+          \o << Rd("R", "p.loading_at", [G0 EXCEPT !.pu = sS.pu, !.lb = RefLB, !.lu = "mmol"], "ref_loading", CanonP(Rel)),
           \* reference_isotherm.loading_at(reducing_pressure, loading_unit='mmol', pressure_mode='relative')
-                Rd("R", "p.loading_at", [G0 EXCEPT !.pm = "relative", !.lu = "mmol"], "ref_point", CanonP(Rel)) >>
+                Rd("R", "p.loading_at", [G0 EXCEPT !.pm = "relative", !.lb = RefLB, !.lu = "mmol"], "ref_point", CanonP(Rel)) >>
      [] an \in {"initial_henry_slope", "initial_henry_virial"} ->
           << Rd("S", "p.pressure", G0, "pressure", Zero), Rd("S", "p.loading", G0, "loading", Zero) >>
      [] an = "isosteric_enthalpy" ->
           \* load_args = loading_unit / material_unit of the FIRST isotherm; pressures in each isotherm's own representation
           LET g == [G0 EXCEPT !.lu = sS.lu, !.mu = sS.mu]
               grid == LET r == ImplAccess("p.loading", sS, g) IN IF r[1] = "val" THEN Plus(ColL(sS), r[3]) ELSE Zero
+              gp == IF "isosteric_pressure_representation" \in Repaired THEN [g EXCEPT !.pm = "absolute", !.pu = "bar"] ELSE g
           IN << Rd("S", "p.loading", g, "range", Zero), Rd("R", "p.loading", g, "range", Zero),
-                Rd("S", "p.pressure_at", g, "pressures", grid), Rd("R", "p.pressure_at", g, "pressures", grid) >>
+                Rd("S", "p.pressure_at", gp, "pressures", grid), Rd("R", "p.pressure_at", gp, "pressures", grid) >>
      [] an = "enthalpy_sorption_whittaker" ->
           \* isotherm.convert_pressure(unit_to='Pa'); model fitted natively; isotherm.pressure_at(n, pressure_unit='Pa')
           << Rd("W", "m.pressure", G0, "model_pressure", Zero),
@@ -139,16 +149,17 @@ PlanClass(an, sS, sR) ==
 VolumeBasis(b) == b \in {"volume_gas", "volume_liquid"}
 ClassTable(an, sS, sR) ==
    CASE an = "alpha_s" ->
-          IF sR.lb # "molar" THEN "refused:ref_loading"
+          IF sR.lb # "molar" /\ "alpha_s_reference_loading_basis" \notin Repaired THEN "refused:ref_loading"
           ELSE IF sR.pm # "relative" THEN "abscissa_distorted:ref_loading"
           ELSE "ok"
      [] an = "isosteric_enthalpy" ->
           IF sS.lb # sR.lb \/ sS.mb # sR.mb THEN "guard:different_basis"
-          ELSE IF sS.pm # "absolute" \/ sR.pm # "absolute" THEN "pressures_not_absolute"
-          ELSE IF sS.pu # sR.pu THEN "pressures_in_different_units"
+          ELSE IF "isosteric_pressure_representation" \notin Repaired /\ (sS.pm # "absolute" \/ sR.pm # "absolute") THEN "pressures_not_absolute"
+          ELSE IF "isosteric_pressure_representation" \notin Repaired /\ sS.pu # sR.pu THEN "pressures_in_different_units"
           ELSE IF VolumeBasis(sS.lb) THEN "isosteres_not_at_constant_amount"
           ELSE "ok"
-     [] an = "enthalpy_sorption_whittaker" -> IF sS.pm # "absolute" THEN "wrong_unit:model_pressure" ELSE "ok"
+     [] an = "enthalpy_sorption_whittaker" ->
+          IF sS.pm # "absolute" /\ "whittaker_pressure_mode" \notin Repaired THEN "wrong_unit:model_pressure" ELSE "ok"
      [] OTHER -> "ok"
 
 ---------------------------------------------------------------------------
